@@ -8,6 +8,7 @@ mod chain;
 mod classify;
 mod envelope;
 mod framing;
+mod notified;
 mod server;
 mod targets;
 mod util;
@@ -61,6 +62,39 @@ fn main() {
         "chain" => cmd_chain(&args, seed, n, &out, &summary),
         "server" => cmd_server(&args, seed, n, &out, &summary),
         "classify" => cmd_classify(&args, seed, n, &out, &summary),
+        "notified" => {
+            use notified::*;
+            let mut r = Rng::new(seed ^ 0x2071);
+            let mut scenarios: Vec<Scenario> = Vec::new();
+            if let Some(p) = arg_val(&args, "--replay") {
+                for v in read_lines(&p) {
+                    scenarios.push(Scenario::from_json(&v));
+                }
+            } else {
+                if let Some(p) = arg_val(&args, "--behaviours") {
+                    for (i, v) in read_lines(&p).iter().enumerate() {
+                        scenarios.push(from_model_behaviour(v, format!("m{i}")));
+                    }
+                }
+                for i in 0..n {
+                    let mut rr = r.fork();
+                    scenarios.push(gen_random(&mut rr, format!("n{seed}-{i}")));
+                }
+            }
+            util::log_open(&out);
+            let mut stats = Stats { scenarios: 0, ops: 0, items: 0 };
+            let dump = arg_val(&args, "--dump-scenarios");
+            let mut dumpw = dump.map(|p| std::io::BufWriter::new(std::fs::File::create(p).unwrap()));
+            for sc in &scenarios {
+                if let Some(w) = dumpw.as_mut() {
+                    use std::io::Write;
+                    writeln!(w, "{}", sc.to_json()).unwrap();
+                }
+                run(sc, &mut stats);
+            }
+            let lines = util::log_close();
+            util::write_json(&summary, &json!({"scenarios": stats.scenarios, "ops": stats.ops, "items": stats.items, "events": lines}));
+        }
         "envelope" => {
             let mut r = Rng::new(seed ^ 0xe17e);
             if let Some(p) = arg_val(&args, "--dump-scenarios") {
